@@ -60,23 +60,39 @@ fn a_pattern<const M: usize>(mask: u32) -> (Vec<usize>, Vec<usize>) {
 /// allocates K with a size computed from the patterns, and with a symbolic A pattern the position
 /// checks did not finish in 25-30 min; all numeric VALUES are symbolic.  Several A patterns per harness.
 fn maps_check<const M: usize, const NNZA: usize>(cones: &CompositeCone<f64>, pid: u8, triu: bool) {
+    maps_check_s::<M, NNZA, 0>(cones, pid, triu, []);
+}
+
+/// S = number of sparse-expanded second-order cones in the layout, `sdims` their dimensions.  For S > 0 the
+/// list of expansion maps is held in a stack store (hook `assemble_kkt_matrix_soc_store`): inside
+/// `LDLDataMap` it is a heap Vec of enums, which CBMC does not constant-propagate (DESIGN 6.2.9) - with the
+/// plain hook these layouts did not finish in 50 min.
+fn maps_check_s<const M: usize, const NNZA: usize, const S: usize>(cones: &CompositeCone<f64>, pid: u8, triu: bool, sdims: [usize; S]) {
     let full: u32 = (1u32 << (2 * M)) - 1;
     if NNZA == 0 {
-        // layouts with a sparse cone expansion: its index maps live in a heap Vec of enums inside
-        // LDLDataMap (not constant-propagated, see DESIGN 6.2.9), so these runs are kept small:
         // one A pattern (first and last row of column 0, last row of column 1)
-        maps_check_one::<M>(cones, pid, triu, 1u32 | (1u32 << (M - 1)) | (1u32 << (2 * M - 1)));
+        maps_check_one::<M, S>(cones, pid, triu, 1u32 | (1u32 << (M - 1)) | (1u32 << (2 * M - 1)), sdims);
     } else {
         // A patterns: dense; last row only; empty first column; scattered
         let masks = [full, (1u32 << (M - 1)) | (1u32 << (2 * M - 1)), full & !((1u32 << M) - 1), 0b1001_0110_1001 & full];
         for &mask in masks.iter() {
-            maps_check_one::<M>(cones, pid, triu, mask);
+            maps_check_one::<M, S>(cones, pid, triu, mask, sdims);
         }
     }
     kani::cover!(true, "all A patterns visited");
 }
 
-fn maps_check_one<const M: usize>(cones: &CompositeCone<f64>, pid: u8, triu: bool, amask: u32) {
+/// the recorded index maps, whichever hook produced them
+struct MapView<'a, const S: usize> {
+    P: &'a [usize],
+    A: &'a [usize],
+    Hsblocks: &'a [usize],
+    diagP: &'a [usize],
+    diag_full: &'a [usize],
+    soc: [(&'a [usize], &'a [usize], [usize; 2]); S],
+}
+
+fn maps_check_one<const M: usize, const S: usize>(cones: &CompositeCone<f64>, pid: u8, triu: bool, amask: u32, sdims: [usize; S]) {
     let (pc, pr) = p_pattern(pid);
     let nnzp = pr.len();
     let mut pv = vec![0f64; nnzp];
@@ -96,18 +112,28 @@ fn maps_check_one<const M: usize>(cones: &CompositeCone<f64>, pid: u8, triu: boo
     }
     let A = CscMatrix::<f64> { m: M, n: N, colptr: ac, rowval: ar, nzval: av };
     assert!(cones.numel() == M);
-    let (K, map) = kk::assemble_kkt_matrix(&P, &A, cones, triu);
-
+    let mut store = kk::VSocMapStore::<S>::new(sdims);
+    let plain;
+    let handle;
+    let (K, map): (CscMatrix<f64>, MapView<S>) = if S == 0 {
+        let (K, m) = kk::assemble_kkt_matrix(&P, &A, cones, triu);
+        plain = m;
+        assert!(plain.sparse_maps.len() == 0);
+        (K, MapView { P: &plain.P, A: &plain.A, Hsblocks: &plain.Hsblocks, diagP: &plain.diagP, diag_full: &plain.diag_full, soc: [(&[], &[], [0; 2]); S] })
+    } else {
+        let (K, h) = kk::assemble_kkt_matrix_soc_store(&P, &A, cones, triu, &mut store);
+        handle = h;
+        assert!(handle.n_sparse() == S);
+        let mut soc: [(&[usize], &[usize], [usize; 2]); S] = [(&[], &[], [0; 2]); S];
+        let mut i = 0;
+        while i < S {
+            soc[i] = handle.soc(i);
+            i += 1;
+        }
+        (K, MapView { P: handle.P(), A: handle.A(), Hsblocks: handle.Hsblocks(), diagP: handle.diagP(), diag_full: handle.diag_full(), soc })
+    };
     // sparse expansion dimension
-    let mut p = 0;
-    let mut i = 0;
-    while i < map.sparse_maps.len() {
-        p += match &map.sparse_maps[i] {
-            kk::VSparseMap::SOC { .. } => 2,
-            kk::VSparseMap::GenPow { .. } => 3,
-        };
-        i += 1;
-    }
+    let p = 2 * S;
     let dim = N + M + p;
     assert!(K.m == dim && K.n == dim, "K_dimension_is_n_plus_m_plus_p");
     assert!(is_canonical(&K), "K_is_canonical");
@@ -200,39 +226,33 @@ fn maps_check_one<const M: usize>(cones: &CompositeCone<f64>, pid: u8, triu: boo
             }
         }
         if cone.is_sparse_expandable() {
-            match &map.sparse_maps[si] {
-                kk::VSparseMap::SOC { u, v, D } => {
-                    assert!(u.len() == d && v.len() == d);
-                    let mut j = 0;
-                    while j < d {
-                        let (tv, tu) = (v[j], u[j]);
-                        assert!(tv < nnzk && tu < nnzk && !used[tv] && !used[tu] && tu != tv, "uv_disjoint");
-                        used[tv] = true;
-                        used[tu] = true;
-                        let (wv, wu) = if triu {
-                            ((start + j, pcol), (start + j, pcol + 1))
-                        } else {
-                            ((pcol, start + j), (pcol + 1, start + j))
-                        };
-                        assert!(coord(&K, tv) == wv, "v_vector_in_first_extra_column");
-                        assert!(coord(&K, tu) == wu, "u_vector_in_second_extra_column");
-                        j += 1;
-                    }
-                    let mut j = 0;
-                    while j < 2 {
-                        let t = D[j];
-                        assert!(t < nnzk && !used[t], "D_disjoint");
-                        used[t] = true;
-                        assert!(coord(&K, t) == (pcol + j, pcol + j), "expansion_diagonal_position");
-                        j += 1;
-                    }
-                    pcol += 2;
-                }
-                kk::VSparseMap::GenPow { p: pp, q, r, D } => {
-                    let _ = (pp, q, r, D);
-                    pcol += 3;
-                }
+            assert!(si < S, "every_sparse_cone_has_a_recorded_map");
+            let (u, v, D) = map.soc[si];
+            assert!(u.len() == d && v.len() == d);
+            let mut j = 0;
+            while j < d {
+                let (tv, tu) = (v[j], u[j]);
+                assert!(tv < nnzk && tu < nnzk && !used[tv] && !used[tu] && tu != tv, "uv_disjoint");
+                used[tv] = true;
+                used[tu] = true;
+                let (wv, wu) = if triu {
+                    ((start + j, pcol), (start + j, pcol + 1))
+                } else {
+                    ((pcol, start + j), (pcol + 1, start + j))
+                };
+                assert!(coord(&K, tv) == wv, "v_vector_in_first_extra_column");
+                assert!(coord(&K, tu) == wu, "u_vector_in_second_extra_column");
+                j += 1;
             }
+            let mut j = 0;
+            while j < 2 {
+                let t = D[j];
+                assert!(t < nnzk && !used[t], "D_disjoint");
+                used[t] = true;
+                assert!(coord(&K, t) == (pcol + j, pcol + j), "expansion_diagonal_position");
+                j += 1;
+            }
+            pcol += 2;
             si += 1;
         }
         ci += 1;
@@ -257,6 +277,18 @@ macro_rules! maps_harness {
         }
     };
 }
+macro_rules! maps_harness_sparse {
+    ($name:ident, $m:expr, [$($c:expr),*], [$($sd:expr),*], $pid:expr, $triu:expr, $unwind:expr) => {
+        #[kani::proof]
+        #[kani::unwind($unwind)]
+        #[kani::stub(std::collections::hash_map::RandomState::new, stub_random_state)]
+        pub fn $name() {
+            use SupportedConeT::*;
+            crate::stack_composite!(cones, f64, [$($c),*]);
+            maps_check_s::<$m, 0, { [$($sd),*].len() }>(&cones, $pid, $triu, [$($sd),*]);
+        }
+    };
+}
 // layout [Zero1, NN2]  (m = 3, all-diagonal Hs)
 maps_harness!(c11_maps_znn_p3_triu, 3, 3, [ZeroConeT(1), NonnegativeConeT(2)], 3, true, 48);
 maps_harness!(c11_maps_znn_p2_tril, 3, 3, [ZeroConeT(1), NonnegativeConeT(2)], 2, false, 48);
@@ -266,16 +298,16 @@ maps_harness!(c11_maps_znn_p4_tril, 3, 2, [ZeroConeT(1), NonnegativeConeT(2)], 4
 maps_harness!(c11_maps_nnsoc3_p1_triu, 4, 3, [NonnegativeConeT(1), SecondOrderConeT(3)], 1, true, 48);
 maps_harness!(c11_maps_nnsoc3_p5_tril, 4, 3, [NonnegativeConeT(1), SecondOrderConeT(3)], 5, false, 48);
 // layout [SOC5] (m = 5, sparse expansion: two extra rows/columns)
-maps_harness!(c11_maps_soc5_p0_triu, 5, 0, [SecondOrderConeT(5)], 0, true, 26);
-maps_harness!(c11_maps_soc5_p2_tril, 5, 0, [SecondOrderConeT(5)], 2, false, 26);
+maps_harness_sparse!(c11_maps_soc5_p0_triu, 5, [SecondOrderConeT(5)], [5usize], 0, true, 26);
+maps_harness_sparse!(c11_maps_soc5_p2_tril, 5, [SecondOrderConeT(5)], [5usize], 2, false, 26);
 // layout [Exp] (m = 3, dense nonsymmetric block) and [NN1, SOC5, Zero1]
 maps_harness!(c11_maps_exp_p4_triu, 3, 2, [ExponentialConeT()], 4, true, 48);
-maps_harness!(c11_maps_nnsoc5z_p1_tril, 7, 0, [NonnegativeConeT(1), SecondOrderConeT(5), ZeroConeT(1)], 1, false, 30);
+maps_harness_sparse!(c11_maps_nnsoc5z_p1_tril, 7, [NonnegativeConeT(1), SecondOrderConeT(5), ZeroConeT(1)], [5usize], 1, false, 30);
 
 // layout [SOC3, SOC5]: a sparse-expanded cone AFTER a cone with a dense Hs block (row offsets of the
 // expansion come from the cone ranges, not from the packed block ranges)
-maps_harness!(c11_maps_soc2soc5_p0_triu, 7, 0, [SecondOrderConeT(2), SecondOrderConeT(5)], 0, true, 30);
-maps_harness!(c11_maps_expsoc5_p0_tril, 8, 0, [ExponentialConeT(), SecondOrderConeT(5)], 0, false, 34);
+maps_harness_sparse!(c11_maps_soc2soc5_p0_triu, 7, [SecondOrderConeT(2), SecondOrderConeT(5)], [5usize], 0, true, 30);
+maps_harness_sparse!(c11_maps_expsoc5_p0_tril, 8, [ExponentialConeT(), SecondOrderConeT(5)], [5usize], 0, false, 34);
 
 /// translation validation of the hook constructor: CompositeCone without the printing-only map
 /// agrees with the real constructor on every field the solver uses (run natively, not under Kani)
